@@ -4,7 +4,7 @@
 Pattern (DESIGN 2.1, E4 table conformance): the TLA+ specification in spec/lang decides every case
 (TLC explores / evaluates it), a Go driver (harness/cmd/lang) renders the same cases to Cadence and
 runs the real parser + checker (+ both execution engines), python only compares the two tables."""
-import json, os, random, itertools, copy, threading
+import json, os, random, re, itertools, copy, threading
 from vlib.core import Infra, read_ndjson, write_ndjson
 
 LEVEL = {"C03": "model_checking", "C50": "model_checking", "C07": "model_checking"}
@@ -53,6 +53,7 @@ def lin_wellformed(prog):
     """Checks everything the checker would reject for reasons OUTSIDE linearity."""
     declared = set()
     funs = {}
+    consts = set()     # function parameters and if-let bindings cannot be assigned (swap, shift target, force-assign)
 
     def need(c):
         if not c:
@@ -101,14 +102,17 @@ def lin_wellformed(prog):
                 need(has(s["x"]) == s["k"])
             elif t == "swap":
                 need(s["x"] != s["y"] and has(s["x"]) == has(s["y"]))
+                need(s["x"] not in consts and s["y"] not in consts)
             elif t == "append":
                 has(s["x"], "a"); has(s["y"], "r")
             elif t == "fassign":
                 has(s["x"], "o"); has(s["y"], "ro")
+                need(s["x"] not in consts)
             elif t == "assign":
                 need(s["x"] != s["y"] and has(s["x"]) == has(s["y"]))
             elif t == "shift":
                 need(s["x"] != s["y"] and has(s["x"]) == has(s["y"]))
+                need(s["x"] not in consts)
                 new(s["z"], scope[s["x"]])
             elif t == "if":
                 block(s["then"], scope, inloop, ret, funscope)
@@ -118,6 +122,7 @@ def lin_wellformed(prog):
                 sc = dict(scope)
                 need(s["y"] not in declared)
                 declared.add(s["y"])
+                consts.add(s["y"])
                 sc[s["y"]] = "r"
                 block(s["then"], sc, inloop, ret, funscope)
                 block(s["else"], scope, inloop, ret, funscope)
@@ -138,6 +143,7 @@ def lin_wellformed(prog):
                 for q in s["params"]:
                     need(q["x"] not in declared)
                     declared.add(q["x"])
+                    consts.add(q["x"])
                     sc[q["x"]] = q["k"]
                 funs[s["name"]] = s
                 block(s["body"], sc, False, s["ret"], funscope)   # resources of the outer function are not visible
@@ -259,6 +265,25 @@ def _vary(body, rng):
     return body
 
 
+def _fix_lets(body):
+    """`let x <- y` must not be followed by an assignment to x (swap, shift, force-assign): that would be a
+    constant-assignment error, which is outside the property; such declarations are rendered with var."""
+    assigned = set()
+
+    def f(s):
+        if s["t"] in ("swap",):
+            assigned.update((s["x"], s["y"]))
+        elif s["t"] in ("shift", "fassign", "assign"):
+            assigned.add(s["x"])
+    _walk(body, f)
+
+    def g(s):
+        if s["t"] == "move" and s.get("form") == "let" and s["x"] in assigned:
+            s["form"] = "var"
+    _walk(body, g)
+    return body
+
+
 # ---------------------------------------------------------------- random programs, correct by construction
 class _Gen:
     """Generates programs in which every path consumes every resource exactly once (by construction:
@@ -272,6 +297,7 @@ class _Gen:
         self.max_stmts = max_stmts
         self.nv = 0
         self.nf = 0
+        self.consts = set()
 
     def fresh(self):
         self.nv += 1
@@ -305,7 +331,7 @@ class _Gen:
         elif exit_kind in ("break", "continue"):
             must = set(goal) | (set(fx["loop_vars"]) & valid)
         elif exit_kind == "panic":
-            must = set(x for x in valid if rng.random() < 0.4)
+            must = set(x for x in sorted(valid) if rng.random() < 0.4)
         n = rng.randint(0, self.max_stmts)
 
         def consumable():
@@ -359,8 +385,8 @@ class _Gen:
                 out.append({"t": "use", "x": y, "k": kinds[y], "form": rng.choice(["call", "call", "ref"])})
             elif r < 0.50 and len(vs) >= 2:
                 a = rng.choice(vs)
-                bs = [b for b in vs if b != a and kinds[b] == kinds[a]]
-                if bs:
+                bs = [b for b in vs if b != a and kinds[b] == kinds[a] and b not in self.consts]
+                if bs and a not in self.consts:
                     out.append({"t": "swap", "x": a, "y": rng.choice(bs)})
             elif r < 0.54:
                 arrs = [v for v in vs if kinds[v] == "a"]
@@ -374,7 +400,7 @@ class _Gen:
                     out.append({"t": "take", "z": z, "x": rng.choice(arrs)})
                     declare(z, "r")
             elif r < 0.57:
-                os_ = [v for v in vs if kinds[v] == "o"]
+                os_ = [v for v in vs if kinds[v] == "o" and v not in self.consts]
                 rs = [c for c in cs if kinds[c] in "ro"]
                 if os_ and rs:
                     o = rng.choice(os_)
@@ -385,7 +411,7 @@ class _Gen:
                         valid.discard(y)
             elif r < 0.60 and cs:
                 y = rng.choice(cs)
-                xs = [v for v in vs if v != y and kinds[v] == kinds[y]]
+                xs = [v for v in vs if v != y and kinds[v] == kinds[y] and v not in self.consts]
                 if xs:
                     z = self.fresh()
                     out.append({"t": "shift", "z": z, "x": rng.choice(xs), "y": y})
@@ -421,6 +447,7 @@ class _Gen:
 
                 if islet:
                     y = self.fresh()
+                    self.consts.add(y)
                     th = branch({y}, {y: "r"}, {y})
                     el = branch(set(), {}, set())
                     out.append({"t": "iflet", "x": o, "y": y, "then": th, "else": el, "noelse": False})
@@ -445,6 +472,7 @@ class _Gen:
                     ps.append({"x": self.fresh(), "k": rng.choice("rro")})
                 ret = rng.random() < 0.3
                 pv = set(q["x"] for q in ps)
+                self.consts |= pv
                 pk = {q["x"]: q["k"] for q in ps}
                 fxn = {"ret": ret, "funs": [], "loop_vars": None}
                 body = self.block(pv, pk, pv, fxn, depth - 1, "return" if ret else rng.choice([None, None, "return"]))
@@ -488,6 +516,7 @@ class _Gen:
     def program(self):
         self.nv = 0
         self.nf = 0
+        self.consts = set()
         fx = {"ret": False, "funs": [], "loop_vars": None}
         ek = self.rng.choice([None, None, None, "return", "panic"])
         return self.block(set(), {}, set(), fx, self.max_depth, ek)
@@ -579,30 +608,61 @@ def lin_random(rng, n, max_depth, max_stmts):
     return progs, kinds
 
 
-LIN_FILES = ["lang/Linearity.tla", "lang/MC_Linearity.cfg"]
-LIN_DEVS = ("exact", "DevLoopOnce", "DevJumpNoExit")
+def lin_flatten(body):
+    """Tree -> numbered blocks (block 1 = function body) for the specification; only the fields it reads."""
+    blocks = []
+
+    def add(ss):
+        idx = len(blocks)
+        blocks.append(None)
+        out = []
+        for s in ss:
+            f = {"t": s["t"]}
+            for key in ("x", "y", "z", "ys"):
+                if key in s:
+                    f[key] = s[key]
+            if s["t"] == "fun":
+                f["params"] = [{"x": q["x"]} for q in s["params"]]
+            for key in ("then", "else", "body"):
+                if key in s:
+                    f[key] = add(s[key])
+            out.append(f)
+        blocks[idx] = out
+        return idx + 1
+    add(body)
+    return blocks
 
 
-def _lin_oracle(ctx, progs, tag, workers):
-    """TLC explores all paths of all programs under the three variants; returns {variant: set(ids with bad reachable)}."""
-    pf = os.path.join(ctx.work, "progs-%s.ndjson" % tag)
-    write_ndjson(pf, progs)
+LIN_FILES = ["lang/Linearity.tla", "lang/MC_Linearity.cfg", "lang/MC_Linearity_dev.cfg"]
+LIN_ACCEPT_DEVS = ("DevLoopOnce", "DevForceAssignInvalid", "DevReturnAfterJump")
+_BAD_RE = re.compile(r'<<"BAD", (\d+), \{(.*)\}>>')
+
+
+def _lin_oracle(ctx, progs, tag, workers, cfg="MC_Linearity.cfg"):
+    """TLC explores all paths of all programs; returns {variant label: set(ids with a bad path reachable)}.
+    variant label: 'exact' or the '+'-joined sorted deviation names."""
     d = os.path.join(ctx.work, "in-" + tag)
     os.makedirs(d, exist_ok=True)
     dst = os.path.join(d, "progs.ndjson")
-    if os.path.exists(dst):
-        os.remove(dst)
-    os.link(pf, dst)
-    r = ctx.tlc(LIN_FILES + [dst], "Linearity", "MC_Linearity.cfg", workers=workers, tag="lin-" + tag, timeout=1700)
+    write_ndjson(dst, [{"id": pr["id"], "blocks": lin_flatten(pr["body"])} for pr in progs])
+    r = ctx.tlc(LIN_FILES + [dst], "Linearity", cfg, workers=workers, tag="lin-" + tag, timeout=1700)
     if not r.finished:
         raise Infra("TLC did not finish on batch %s" % tag)
-    bad = {dv: set() for dv in LIN_DEVS}
-    for ln in r.tuples("BAD"):
-        parts = ln.strip("<>").split(",")
-        pid = int(parts[1].strip())
-        dv = parts[2].strip().strip('"')
-        bad[dv].add(pid)
-    return bad, pf, r
+    bad = {}
+    for ln in r.lines:
+        m = _BAD_RE.match(ln)
+        if m:
+            names = sorted(x.strip().strip('"') for x in m.group(2).split(",") if x.strip())
+            bad.setdefault("+".join(names) or "exact", set()).add(int(m.group(1)))
+    return bad, r
+
+
+def _lin_checker(ctx, binary, progs, tag, src=False):
+    pf = os.path.join(ctx.work, "progs-%s.ndjson" % tag)
+    rf = os.path.join(ctx.work, "lin-results-%s.ndjson" % tag)
+    write_ndjson(pf, progs)
+    ctx.run([binary, "lin", pf, rf], timeout=1700, env={"LANG_SRC": "1"} if src else None)
+    return {row["id"]: row for row in read_ndjson(rf) if not row.get("summary")}
 
 
 def check_C03(ctx):
@@ -612,162 +672,161 @@ def check_C03(ctx):
     if ctx.quick:
         sysm = lin_enumerate(4, 3, {"move", "use"})
         extra = lin_enumerate(5, 2, {"move"})
-        seen = set(json.dumps(b, sort_keys=True) for b in sysm)
-        extra = [b for b in extra if json.dumps(b, sort_keys=True) not in seen]
-        rng.shuffle(extra)
-        sysm += extra[:6000]
-        nrand, batch = 9000, 12000
+        nextra, nrand, batch = 3000, 6000, 8000
     else:
         sysm = lin_enumerate(5, 3, {"move", "use"})
         extra = lin_enumerate(6, 2, {"move"})
-        seen = set(json.dumps(b, sort_keys=True) for b in sysm)
-        extra = [b for b in extra if json.dumps(b, sort_keys=True) not in seen]
-        rng.shuffle(extra)
-        sysm += extra[:60000]
-        nrand, batch = 120000, 20000
+        nextra, nrand, batch = 60000, 120000, 20000
     nsys_exh = len(sysm)
+    seen = set(json.dumps(b, sort_keys=True) for b in sysm)
+    extra = [b for b in extra if json.dumps(b, sort_keys=True) not in seen]
+    rng.shuffle(extra)
+    sysm += extra[:nextra]
     sysm = [_vary(copy.deepcopy(b), rng) for b in sysm]
     rnd, mix = lin_random(rng, nrand, 3, 4)
-    bodies = sysm + rnd
+    bodies = [_fix_lets(b) for b in sysm + rnd]
     progs = [{"id": i + 1, "body": b} for i, b in enumerate(bodies)]
-    for pr in progs[:nsys_exh]:
+    for pr in progs[:len(sysm)]:
         if not lin_wellformed(pr):
             raise Infra("C03 enumerator produced an ill-formed program: %s" % json.dumps(pr))
-    ctx.log("programs: %d systematic + %d random (%s)" % (len(sysm), len(rnd), mix))
+    ctx.log("programs: %d systematic (%d = every program up to the exhaustive bound) + %d random (%s)"
+            % (len(sysm), nsys_exh, len(rnd), mix))
 
-    # ---- oracle (TLC) and checker, batch by batch
+    # ---- pass 1: exact oracle (TLC) and real checker on every program, batch by batch
     batches = [progs[i:i + batch] for i in range(0, len(progs), batch)]
-    oracle = {dv: set() for dv in LIN_DEVS}
+    exact_bad = set()
     verdicts = {}
-    par = 1 if ctx.quick else 3
+    par = 2 if ctx.quick else 4
     lock = threading.Lock()
     errs = []
 
     def run_batch(bi):
         try:
-            b = batches[bi]
-            bad, pf, r = _lin_oracle(ctx, b, "b%d" % bi, max(2, ctx.cores // par))
-            rf = os.path.join(ctx.work, "lin-results-b%d.ndjson" % bi)
-            ctx.run([binary, "lin", pf, rf], timeout=1700)
-            rows = read_ndjson(rf)
+            bad, r = _lin_oracle(ctx, batches[bi], "b%d" % bi, max(2, ctx.cores // par))
+            rows = _lin_checker(ctx, binary, batches[bi], "b%d" % bi)
             with lock:
-                for dv in LIN_DEVS:
-                    oracle[dv] |= bad[dv]
-                for row in rows:
-                    if not row.get("summary"):
-                        verdicts[row["id"]] = row
+                exact_bad.update(bad.get("exact", set()))
+                verdicts.update(rows)
         except Exception as e:  # re-raised below in the main thread
             errs.append(e)
 
-    if par == 1:
-        for bi in range(len(batches)):
-            run_batch(bi)
-    else:
-        sem = threading.Semaphore(par)
+    sem = threading.Semaphore(par)
 
-        def guarded(bi):
-            with sem:
-                run_batch(bi)
-        ths = [threading.Thread(target=guarded, args=(bi,)) for bi in range(len(batches))]
-        for t in ths:
-            t.start()
-        for t in ths:
-            t.join()
+    def guarded(bi):
+        with sem:
+            run_batch(bi)
+    ths = [threading.Thread(target=guarded, args=(bi,)) for bi in range(len(batches))]
+    for t in ths:
+        t.start()
+    for t in ths:
+        t.join()
     if errs:
         raise errs[0]
     if len(verdicts) != len(progs):
         raise Infra("checker driver returned %d verdicts for %d programs" % (len(verdicts), len(progs)))
 
-    # ---- sanity of the model's own variants: fewer paths can only remove bad paths
-    inconsistent = oracle["DevLoopOnce"] - oracle["exact"]
-    if inconsistent:
-        raise Infra("model inconsistency: DevLoopOnce finds a bad path the exact oracle does not (ids %s)" % sorted(inconsistent)[:5])
-
-    corrupt = os.environ.get("VERIF_SELFTEST_CORRUPT") == "C03"
-    if corrupt:  # negative control: flip one table entry of the oracle
-        victim = next(pr["id"] for pr in progs if pr["id"] not in oracle["exact"] and verdicts[pr["id"]]["accept"])
-        oracle["exact"].add(victim)
-        oracle["DevLoopOnce"].add(victim)
-        ctx.log("SELFTEST: flipped oracle entry of program %d" % victim)
+    if os.environ.get("VERIF_SELFTEST_CORRUPT") == "C03":  # negative control: flip one entry of the checker's table
+        def plain(pr):
+            ts = set()
+            _walk(pr["body"], lambda s: ts.add(s["t"]))
+            return not (ts & set(TERMINATORS)) and _size(pr["body"]) >= 3
+        victim = next(pr["id"] for pr in progs if pr["id"] not in exact_bad and verdicts[pr["id"]]["accept"] and plain(pr))
+        verdicts[victim] = dict(verdicts[victim], accept=False, res=["ResourceLossError"])
+        ctx.log("SELFTEST: flipped the recorded checker verdict of program %d to 'rejects'" % victim)
 
     # ---- compare
-    noise, agree_bad, agree_ok, known = 0, 0, 0, {"DevLoopOnce": 0, "DevJumpNoExit": 0}
+    noise, agree_bad, agree_ok = 0, 0, 0
     nontrivial = set()
     noise_kinds = {}
-    by_id = {pr["id"]: pr for pr in progs}
-
-    def render(pid):
-        pf = os.path.join(ctx.work, "one-%d.ndjson" % pid)
-        rf = os.path.join(ctx.work, "one-%d.out.ndjson" % pid)
-        write_ndjson(pf, [by_id[pid]])
-        ctx.run([binary, "lin", pf, rf], env={"LANG_SRC": "1"})
-        return read_ndjson(rf)[0].get("src", "")
-
+    disagree = []
     for pr in progs:
         pid = pr["id"]
         v = verdicts[pid]
-        exact_bad = pid in oracle["exact"]
         if v["accept"]:
             checker_rejects = False
-        elif v["res"]:
+        elif v.get("res"):
             checker_rejects = True
         else:
             # rejected only for reasons outside the property: generator noise, not counted
             noise += 1
-            for o in v["other"]:
+            for o in (v.get("other") or ["?"]):
                 noise_kinds[o.split(":")[0]] = noise_kinds.get(o.split(":")[0], 0) + 1
             continue
         feats = set()
         _walk(pr["body"], lambda s: feats.add(s["t"]))
         if feats & {"if", "iflet", "while", "for", "fun"} and _size(pr["body"]) >= 3:
             nontrivial.add(json.dumps(pr["body"], sort_keys=True))
-        if checker_rejects == exact_bad:
-            if exact_bad:
+        if checker_rejects == (pid in exact_bad):
+            if checker_rejects:
                 agree_bad += 1
             else:
                 agree_ok += 1
-            continue
-        # disagreement between the real checker and the exact oracle
-        if not checker_rejects:
-            dv, explained = "DevLoopOnce", pid not in oracle["DevLoopOnce"]
-            side = "accepts-program-with-bad-path"
         else:
-            dv, explained = "DevJumpNoExit", pid in oracle["DevJumpNoExit"]
-            side = "rejects-linear-program"
-        sig = {"side": side, "deviation": dv if explained else "none",
-               "errors": ",".join(v["res"]), "features": ",".join(sorted(feats))}
-        src = render(pid)
-        msg = ("program %d: checker %s, exact oracle says a bad path is %s; %s\n%s" %
-               (pid, "REJECTS " + str(v["res"]) if checker_rejects else "ACCEPTS",
-                "reachable" if exact_bad else "NOT reachable",
-                ("explained by deviation variant " + dv) if explained else "NOT explained by any named deviation variant",
-                src[src.find("access(all) fun test()"):]))
-        res = ctx.report(sig, msg, {"program": pr, "source": src, "checker": v,
-                                    "oracle": {d: pid in oracle[d] for d in LIN_DEVS}})
-        if res == "known":
-            known[dv] += 1
-            if sum(known.values()) <= 2:
-                ctx.add_sample({"kind": "known deviation " + dv, "source": src[src.find("access(all) fun test()"):]})
+            disagree.append((pr, checker_rejects, feats))
     if noise_kinds.get("PARSE") or noise_kinds.get("RENDER") or noise_kinds.get("NEWCHECKER"):
         raise Infra("renderer produced unparsable programs: %s" % noise_kinds)
     if noise > 0.02 * len(progs):
         raise Infra("too many generated programs outside the fragment (%d of %d): %s" % (noise, len(progs), noise_kinds))
+
+    # ---- pass 2: the named deviation variants, only on the programs where checker and exact oracle disagree
+    known = {}
+    if disagree:
+        dprogs = [pr for pr, _, _ in disagree]
+        vbad, _ = _lin_oracle(ctx, dprogs, "dev", ctx.cores, cfg="MC_Linearity_dev.cfg")
+        srcs = _lin_checker(ctx, binary, dprogs, "dev", src=True)
+        vb = lambda label, pid: pid in vbad.get(label, set())
+        for pr, _, _ in disagree:   # the exact variant is part of the second run: same verdict as in pass 1
+            if vb("exact", pr["id"]) != (pr["id"] in exact_bad):
+                raise Infra("exact oracle not reproducible for program %d" % pr["id"])
+        # sanity of the model: a variant that only removes paths cannot add a bad path
+        for pr, _, _ in disagree:
+            if vb("DevLoopOnce", pr["id"]) and not vb("exact", pr["id"]):
+                raise Infra("model inconsistency: DevLoopOnce finds a bad path the exact oracle does not (program %d)" % pr["id"])
+        subsets = []
+        for n in (1, 2, 3):
+            subsets += ["+".join(sorted(c)) for c in itertools.combinations(LIN_ACCEPT_DEVS, n)]
+        for pr, checker_rejects, feats in disagree:
+            pid = pr["id"]
+            v = verdicts[pid]
+            if not checker_rejects:
+                side = "accepts-program-with-bad-path"
+                expl = next((lab for lab in subsets if not vb(lab, pid)), None)
+            else:
+                side = "rejects-linear-program"
+                expl = "DevJumpNoExit" if vb("DevJumpNoExit", pid) else None
+            src = srcs[pid].get("src", "")
+            fsrc = src[src.find("access(all) fun test()"):]
+            sig = {"side": side, "deviation": expl or "none", "errors": ",".join(v.get("res") or []),
+                   "features": ",".join(sorted(feats))}
+            msg = ("program %d: checker %s, exact oracle says a bad path is %s; %s\n%s" %
+                   (pid, "REJECTS " + str(v.get("res")) if checker_rejects else "ACCEPTS",
+                    "NOT reachable" if checker_rejects else "reachable",
+                    ("reproduced by the oracle variant " + expl) if expl else "NOT reproduced by any named deviation variant",
+                    fsrc))
+            res = ctx.report(sig, msg, {"program": pr, "source": src, "checker": v,
+                                        "bad_under": sorted(lab for lab in vbad if pid in vbad[lab])})
+            if res == "known":
+                known[expl] = known.get(expl, 0) + 1
+                if known[expl] == 1:
+                    ctx.add_sample({"kind": "known deviation " + expl, "side": side, "source": fsrc}, limit=8)
     mid = progs[len(sysm) + len(rnd) // 2]
-    ctx.add_sample({"kind": "random program", "program": mid["body"], "oracle_bad": mid["id"] in oracle["exact"],
-                    "checker": verdicts[mid["id"]]})
-    ctx.add_sample({"kind": "systematic program", "program": progs[nsys_exh // 2]["body"],
-                    "oracle_bad": progs[nsys_exh // 2]["id"] in oracle["exact"], "checker": verdicts[progs[nsys_exh // 2]["id"]]})
+    ctx.add_sample({"kind": "random program", "program": mid["body"], "oracle_bad": mid["id"] in exact_bad,
+                    "checker": verdicts[mid["id"]]}, limit=8)
+    sm = progs[nsys_exh // 2]
+    ctx.add_sample({"kind": "systematic program", "program": sm["body"], "oracle_bad": sm["id"] in exact_bad,
+                    "checker": verdicts[sm["id"]]}, limit=8)
     counted = len(progs) - noise
     return ctx.finish({
         "traces_validated_against_impl": counted,
         "evaluations": len(progs),
-        "programs_systematic": len(sysm), "programs_random": len(rnd), "random_mix": mix,
+        "programs_systematic": len(sysm), "programs_systematic_exhaustive_part": nsys_exh,
+        "programs_random": len(rnd), "random_mix": mix,
         "discarded_outside_fragment": noise, "discarded_kinds": noise_kinds,
-        "agree_reject": agree_bad, "agree_accept": agree_ok,
+        "agree_reject": agree_bad, "agree_accept": agree_ok, "disagreements": len(disagree),
         "known_deviation_cases": known,
         "distinct_nontrivial": len(nontrivial),
         "rule": "distinct programs (canonical JSON) with at least one branching/looping/nested-function construct and >= 3 statements, "
-                "each explored path by path by TLC (3 oracle variants) and checked by the real sema.Checker; "
+                "each explored path by path by TLC (exact oracle; deviation variants on disagreements) and checked by the real sema.Checker; "
                 "systematic part = every statement sequence up to the size bound, random part seeded by VERIF_SEED, half of it mutated",
         "exhaustive": False,
     }, assumptions=["fragment: local resource variables of types @R, @R?, @[R]; no fields, no dictionaries, no switch",
@@ -786,4 +845,356 @@ META["C03"] = {
     "technique": "TLA+ small-step semantics (Linearity.tla) model-checked per program by TLC; table conformance against sema.Checker",
     "design_ref": "DESIGN.md section 5 C03, Appendix A.2, section 7 #9 #10",
     "engine": "E4 table (program batch as data)",
+}
+
+
+# =====================================================================================
+# C50 — access modifiers and constant fields (spec/lang/Access.tla)
+# =====================================================================================
+ACC_FILES = ["lang/Access.tla", "lang/MC_Access_quick.cfg"]
+
+
+def check_C50(ctx):
+    binary = ctx.build("lang")
+    r = ctx.tlc(ACC_FILES, "Access", "MC_Access_quick.cfg", workers=1, timeout=600)
+    rows = list({json.dumps(x, sort_keys=True): x for x in r.json_lines()}.values())
+    if len(rows) < 1000:
+        raise Infra("Access.tla printed only %d table rows" % len(rows))
+    rows.sort(key=lambda x: json.dumps(x, sort_keys=True))
+    for i, x in enumerate(rows):
+        x["id"] = i + 1
+    if os.environ.get("VERIF_SELFTEST_CORRUPT") == "C50":   # negative control: flip one table entry
+        rows[len(rows) // 3]["permitted"] = not rows[len(rows) // 3]["permitted"]
+        ctx.log("SELFTEST: flipped table entry %s" % rows[len(rows) // 3])
+    cf = os.path.join(ctx.work, "acc-cases.ndjson")
+    rf = os.path.join(ctx.work, "acc-results.ndjson")
+    write_ndjson(cf, rows)
+    ctx.run([binary, "acc", cf, rf, "src"], timeout=1500)
+    res = {x["id"]: x for x in read_ndjson(rf) if not x.get("summary")}
+    if len(res) != len(rows):
+        raise Infra("driver returned %d results for %d cases" % (len(res), len(rows)))
+    harness = [(x, res[x["id"]]) for x in rows if res[x["id"]].get("other")]
+    if harness:
+        x, v = harness[0]
+        raise Infra("C50 renderer: %d case(s) rejected for reasons outside the property, e.g. %s -> %s\n%s"
+                    % (len(harness), {k: x[k] for k in x if k != "id"}, v["other"], v.get("src", "")[-3000:]))
+    n_perm = n_deny = 0
+    classes = set()
+    for x in rows:
+        v = res[x["id"]]
+        if x["permitted"]:
+            n_perm += 1
+        else:
+            n_deny += 1
+        if x["kind"] == "access":
+            classes.add((x["site"], x["cont"], x["mod"], x["mkind"], x["op"], x["via"] in ("self", "o", "oo", "name")))
+        if v["accept"] == x["permitted"]:
+            continue
+        sig = {k: x[k] for k in x if k not in ("id",)}
+        sig["checker"] = "accepts" if v["accept"] else "rejects"
+        ctx.report(sig, "access case %s: model says %s, checker %s %s\n%s" %
+                   ({k: x[k] for k in x if k not in ("id", "permitted")},
+                    "PERMITTED" if x["permitted"] else "NOT permitted",
+                    "ACCEPTS" if v["accept"] else "REJECTS", v.get("access") or "", v.get("src", "")[-2500:]),
+                   {"case": x, "checker": v})
+    for x in (rows[7], rows[len(rows) // 2], rows[-3]):
+        ctx.add_sample({"case": {k: x[k] for k in x if k != "id"}, "checker_accepts": res[x["id"]]["accept"],
+                        "program_tail": res[x["id"]].get("src", "")[-600:]})
+    return ctx.finish({
+        "traces_validated_against_impl": len(rows),
+        "evaluations": len(rows),
+        "permitted_rows": n_perm, "denied_rows": n_deny,
+        "distinct_nontrivial": len(classes),
+        "rule": "rows of the table enumerated by TLC from Access.tla (site x container x composite kind x modifier x member kind x path x operation, "
+                "plus the initializer family); distinct = (site, container, modifier, member kind, operation, owned-vs-reference path) classes; "
+                "every row is rendered as contracts on 2 accounts (+ script/transaction) and checked by the real checker through the runtime",
+        "exhaustive": True,
+    }, assumptions=["members are Int fields / nullary functions; composite S is a struct or a resource nested in contract A",
+                    "entitlement modifiers: access(E), access(E, F), access(E | F); references: unauthorized, auth(E), auth(F), auth(E, F), optional",
+                    "a checker rejection with any error other than an access / constant-field error is a harness error (exit 2)"])
+
+
+META["C50"] = {
+    "level_text": "TLC enumerates the complete table of the lexical access model Access.tla (10 access sites x contract/composite members x 7 modifiers "
+                  "x var/let/function x 8 access paths x read/call/assign, struct and resource, plus the initializer family) and checks the model's "
+                  "laws (modifier chain, authorization monotonicity); every row is rendered to contracts deployed on two accounts, scripts and "
+                  "transactions and the real checker's accept/reject is compared with Permitted.",
+    "level_note": "Trusted: TLC, the Go renderer, the repo's test ledger. The table is finite and enumerated completely; member types are Int / nullary functions.",
+    "technique": "TLA+ scope model (Access.tla) evaluated by TLC; table conformance against the checker run through the real runtime",
+    "design_ref": "DESIGN.md section 5 C50",
+    "engine": "E4 table",
+}
+
+
+# =====================================================================================
+# C52 — evaluation order and short-circuiting (spec/lang/EvalOrder.tla)
+# =====================================================================================
+LEVEL["C52"] = "model_checking"
+EO_FILES = ["lang/EvalOrder.tla", "lang/MC_EvalOrder.tla"]
+EO_ERR_CLASS = {"div0": "user:DivisionByZeroError", "force-nil": "user:ForceNilError",
+                "index": "user:ArrayIndexOutOfBoundsError", "force-cast": "user:ForceCastTypeMismatchError"}
+
+
+def _eo_tables(ctx, nchunks):
+    """TLC enumerates / samples the terms, evaluates each with the specification's big-step evaluator,
+    checks the model's own laws and prints the table; chunks run as parallel TLC processes."""
+    base = open(os.path.join(os.path.dirname(os.path.dirname(os.path.abspath(__file__))), "spec", "lang",
+                             "MC_EvalOrder_quick.cfg" if ctx.quick else "MC_EvalOrder_thorough.cfg")).read()
+    out, errs, lock = [], [], threading.Lock()
+
+    def one(ch):
+        try:
+            cfg = os.path.join(ctx.work, "MC_EvalOrder_c%d.cfg" % ch)
+            with open(cfg, "w") as fh:
+                fh.write(base.replace("Chunk = 0", "Chunk = %d" % ch).replace("NChunks = 1", "NChunks = %d" % nchunks))
+            r = ctx.tlc(EO_FILES + [cfg], "MC_EvalOrder", os.path.basename(cfg), workers=1, tag="eo-c%d" % ch,
+                        timeout=2400, extra=["-seed", str(ctx.seed)])
+            rows = r.json_lines()
+            with lock:
+                out.extend(rows)
+        except Exception as e:
+            errs.append(e)
+    ths = [threading.Thread(target=one, args=(ch,)) for ch in range(nchunks)]
+    for t in ths:
+        t.start()
+    for t in ths:
+        t.join()
+    if errs:
+        raise errs[0]
+    return out
+
+
+def _eo_forms(t, acc):
+    acc.add(t["o"])
+    for c in t["a"]:
+        _eo_forms(c, acc)
+    return acc
+
+
+def check_C52(ctx):
+    binary = ctx.build("langeo")
+    nchunks = 4 if ctx.quick else 12
+    rows = _eo_tables(ctx, nchunks)
+    # distinct cases (sampled terms may repeat across chunks); ids are per chunk-universe, renumber
+    uniq = {}
+    for x in rows:
+        uniq.setdefault(json.dumps(x["term"], sort_keys=True), x)
+    cases = list(uniq.values())
+    cases.sort(key=lambda x: json.dumps(x["term"], sort_keys=True))
+    for i, x in enumerate(cases):
+        x["id"] = i + 1
+    if len(cases) < 20000:
+        raise Infra("EvalOrder.tla produced only %d cases" % len(cases))
+    if os.environ.get("VERIF_SELFTEST_CORRUPT") == "C52":   # negative control: corrupt one expected log
+        v = next(x for x in cases if len(x["log"]) >= 3)
+        v["log"][0], v["log"][1] = v["log"][1], v["log"][0]
+        ctx.log("SELFTEST: swapped two entries of the expected log of case %d" % v["id"])
+    cf = os.path.join(ctx.work, "eo-cases.ndjson")
+    rf = os.path.join(ctx.work, "eo-results.ndjson")
+    write_ndjson(cf, cases)
+    ctx.run([binary, cf, rf], timeout=2400)
+    res = {x["id"]: x for x in read_ndjson(rf) if not x.get("summary")}
+    if len(res) != len(cases):
+        raise Infra("langeo returned %d results for %d cases" % (len(res), len(cases)))
+    nontrivial = 0
+    forms_seen = set()
+    lazy = {"and", "or", "coal", "coalO", "condB", "condI", "condO", "ocall"}
+    nviol = 0
+    for x in cases:
+        r = res[x["id"]]
+        if r.get("harness"):
+            raise Infra("C52 renderer failed on case %d: %s" % (x["id"], r["harness"]))
+        forms = _eo_forms(x["term"], set())
+        forms_seen |= forms
+        if len(x["log"]) >= 2 or (forms & lazy) or x["fails"]:
+            nontrivial += 1
+        for run in r["runs"]:
+            cls = run["class"]
+            if cls.startswith("user:") and cls not in EO_ERR_CLASS.values():
+                # a checker / type error in the rendering: not evidence about evaluation order
+                raise Infra("C52 renderer: case %d rejected with %s: %s\n%s" % (x["id"], cls, run.get("err"), r["expr"]))
+            kind = None
+            logs = run.get("logs") or []
+            if run.get("badlog") or logs != x["log"]:
+                kind = "log-mismatch"
+            elif (cls == "ok") != (not x["fails"]):
+                kind = "abort-mismatch"
+            elif x["fails"] and cls != EO_ERR_CLASS.get(x["err"]):
+                kind = "abort-kind-mismatch"
+            elif not x["fails"]:
+                want = x["val"]
+                if x["ty"] == "D" or x["term"]["o"] == "asgDict":
+                    want = sorted(want, key=str)
+                if run.get("value") != want:
+                    kind = "value-mismatch"
+            if kind is None:
+                continue
+            nviol += 1
+            if nviol > 300:
+                continue
+            sig = {"form": x["term"]["o"], "engine": run["engine"], "kind": kind, "forms": ",".join(sorted(forms))}
+            ctx.report(sig, "case %d on %s: %s\n  %s\n  expected log %s value %s %s\n  observed log %s class %s value %s" %
+                       (x["id"], run["engine"], kind, r["expr"], x["log"], x["val"],
+                        ("abort " + x["err"]) if x["fails"] else "", logs, cls, run.get("value")),
+                       {"case": x, "rendered": r["expr"], "run": run})
+    for x in (cases[len(cases) // 7], cases[len(cases) // 2], cases[-5]):
+        ctx.add_sample({"rendered": res[x["id"]]["expr"], "expected_log": x["log"], "expected_value": x["val"],
+                        "aborts": x["err"] if x["fails"] else None})
+    return ctx.finish({
+        "traces_validated_against_impl": len(cases) * 2,
+        "evaluations": len(cases) * 2,
+        "cases": len(cases), "table_rows_printed": len(rows), "forms_covered": sorted(forms_seen),
+        "distinct_nontrivial": nontrivial,
+        "rule": "distinct numbered terms (operator/statement form x shape x truth/nil valuation of the leaves) whose expected log has >= 2 entries, "
+                "or that contain a lazy form (&& || ?? ?: ?.), or that abort; each executed on interpreter and VM; compared: log sequence, "
+                "abort / abort kind, value",
+        "exhaustive": bool(ctx.quick),
+    }, assumptions=["leaf side effects are log calls of functions b/h/n/arr/dct/mk/mko; method and function bodies log a marker",
+                    "depth <= 2 terms are enumerated exhaustively over the inner alphabet of the cfg, depth-3 terms are sampled with VERIF_SEED",
+                    "static `as` casts are inserted by the renderer around ?: and ?? results to pin their static type"])
+
+
+META["C52"] = {
+    "level_text": "TLC builds every expression / statement term to depth 2 (plus seeded samples of depth 3) over 40 operator, literal, access, cast, "
+                  "call, assignment and swap forms with every truth/nil valuation of the logging leaves, evaluates each with the specification's "
+                  "big-step evaluator (value, log, abort) and checks the evaluator's own laws (exactly once, left to right, short-circuit laws, body "
+                  "after arguments); every term is rendered as a script and run on interpreter and VM; ProgramLog sequence, abort kind and value must "
+                  "equal the model's.",
+    "level_note": "Trusted: TLC, the Go renderer. Exhaustive to depth 2 over the cfg's alphabet; depth 3 sampled. Resource moves and string templates are not covered.",
+    "technique": "TLA+ big-step evaluator (EvalOrder.tla) evaluated by TLC over an enumerated term universe; table conformance on both engines",
+    "design_ref": "DESIGN.md section 5 C52",
+    "engine": "E4 table",
+}
+
+
+# =====================================================================================
+# C10 — pre- and post-conditions are always enforced (spec/lang/Conditions.tla)
+# =====================================================================================
+LEVEL["C10"] = "model_checking"
+COND_FILES = ["lang/Conditions.tla", "lang/MC_Conditions.tla"]
+
+
+def _cond_name(s, ni):
+    return "C" if s == ni + 1 else "I%d" % s
+
+
+def _cond_expected(x):
+    """the specification's observables (pairs) as the strings the rendered program produces"""
+    ni, e = x["ni"], x["exp"]
+    ev = ["%s.%s" % (_cond_name(s, ni), tag) for s, tag in e["events"]]
+    logs = []
+    for tag, v in e["logs"]:
+        logs.append("%s:%s" % (tag, _cond_name(v, ni) if tag in ("body", "gbody") else v))
+    msg = "%s:%s" % (e["msg"][0], _cond_name(e["msg"][1], ni)) if e["msg"] else ""
+    return ev, logs, msg
+
+
+def _cond_table(ctx):
+    base = open(os.path.join(os.path.dirname(os.path.dirname(os.path.abspath(__file__))), "spec", "lang",
+                             "MC_Conditions_quick.cfg" if ctx.quick else "MC_Conditions_thorough.cfg")).read()
+    cfg = os.path.join(ctx.work, "MC_Conditions_run.cfg")
+    with open(cfg, "w") as fh:
+        fh.write(base.replace("Seed = 1", "Seed = %d" % ctx.seed))
+    r = ctx.tlc(COND_FILES + [cfg], "MC_Conditions", "MC_Conditions_run.cfg", workers=ctx.cores, timeout=2400)
+    return r.json_lines(), r
+
+
+def check_C10(ctx):
+    binary = ctx.build("langcond")
+    rows, r = _cond_table(ctx)
+    uniq = {}
+    for x in rows:
+        uniq.setdefault(json.dumps(x, sort_keys=True), x)
+    cases = sorted(uniq.values(), key=lambda x: json.dumps(x, sort_keys=True))
+    for i, x in enumerate(cases):
+        x["id"] = i + 1
+    if len(cases) < 3000:
+        raise Infra("Conditions.tla produced only %d configurations" % len(cases))
+    if os.environ.get("VERIF_SELFTEST_CORRUPT") == "C10":    # negative control: flip one expected outcome
+        v = next(x for x in cases if not x["exp"]["ok"] and x["exp"]["kind"] == "pre")
+        v["exp"] = dict(v["exp"], ok=True, kind="", msg=[])
+        ctx.log("SELFTEST: flipped expected outcome of configuration %d to ok" % v["id"])
+    cf = os.path.join(ctx.work, "cond-cases.ndjson")
+    rf = os.path.join(ctx.work, "cond-results.ndjson")
+    write_ndjson(cf, cases)
+    ctx.run([binary, cf, rf], timeout=2400, env={"LANGCOND_SRC": "1"} if len(cases) < 30000 else None)
+    res = {}
+    for row in read_ndjson(rf):
+        if not row.get("summary"):
+            res.setdefault(row["id"], []).append(row)
+    if len(res) != len(cases):
+        raise Infra("langcond returned results for %d of %d configurations" % (len(res), len(cases)))
+    nontrivial, ninh_fail, nviol = set(), 0, 0
+    for x in cases:
+        ev, logs, msg = _cond_expected(x)
+        e = x["exp"]
+        shape = json.dumps([x["par"], x["conf"], [s[0] for s in x["sites"]], x["nest"], x["via"]])
+        if x["ninh"] >= 1:
+            nontrivial.add(json.dumps([shape, sorted(map(str, [s[1:] for s in x["sites"]]))]))
+            if not e["ok"]:
+                ninh_fail += 1
+        for run in res[x["id"]]:
+            if run.get("harness"):
+                raise Infra("C10: the checker rejects generated configuration %d (well-formedness predicate of the spec is wrong "
+                            "or renderer error): %s\n%s" % (x["id"], run.get("err", "")[:600], run.get("src", "")))
+            cls = run["class"]
+            kind = None
+            if e["ok"]:
+                if cls != "ok":
+                    kind = "spurious-failure" if cls == "user:ConditionError" else "other-error"
+                elif run.get("value") != str(e["ret"]):
+                    kind = "wrong-result-value"
+            else:
+                if cls == "ok":
+                    kind = "missed-%s-condition" % e["kind"]
+                elif cls != "user:ConditionError":
+                    kind = "other-error"
+                elif run.get("ckind") != e["kind"] or run.get("msg") != msg:
+                    kind = "wrong-condition-reported"
+            if kind is None and run["events"] != ev:
+                kind = "event-sequence"
+            if kind is None and run["logs"] != logs:
+                kind = "body-or-log-sequence"
+            if kind is None:
+                continue
+            nviol += 1
+            if nviol > 300:
+                continue
+            failing_site = e["msg"][1] if e["msg"] else 0
+            sig = {"engine": run["engine"], "kind": kind,
+                   "site": (x["rel"][failing_site - 1] if failing_site else "none"),
+                   "impl": "own" if x["impl"] == x["ni"] + 1 else "default", "nest": x["nest"], "via": "iface" if x["via"] else "concrete"}
+            ctx.report(sig, "configuration %d on %s: %s\n  expected: ok=%s kind=%s msg=%s events=%s logs=%s ret=%s\n  observed: class=%s kind=%s msg=%s events=%s logs=%s value=%s\n%s"
+                       % (x["id"], run["engine"], kind, e["ok"], e["kind"], msg, ev, logs, e["ret"],
+                          cls, run.get("ckind"), run.get("msg"), run["events"], run["logs"], run.get("value"), run.get("src", "")),
+                       {"case": x, "run": {k: run[k] for k in run if k != "src"}, "source": run.get("src")})
+    for x in (cases[len(cases) // 5], cases[len(cases) // 2], cases[-7]):
+        ev, logs, msg = _cond_expected(x)
+        ctx.add_sample({"interfaces": x["par"], "C_conforms_to": x["conf"], "sites[kind,pre,post,D,R,gpre,gpost,E]": x["sites"],
+                        "d": x["d"], "r": x["r"], "nest": x["nest"], "via": x["via"],
+                        "expected": {"ok": x["exp"]["ok"], "failing": msg, "events": ev, "logs": logs}})
+    return ctx.finish({
+        "states": r.distinct, "transitions": r.generated,
+        "traces_validated_against_impl": len(cases) * 2,
+        "evaluations": len(cases) * 2, "configurations": len(cases),
+        "configurations_failing_with_inherited_condition": ninh_fail,
+        "distinct_nontrivial": len(nontrivial),
+        "rule": "distinct configurations (interface DAG, conformance list, per-site function shape, truth values of all tests, d/D, r/R) in which "
+                "at least one interface the concrete type conforms to contributes a condition block; each run on interpreter and VM; compared: "
+                "ok / condition error with kind and message, emitted condition events in order, which body ran, counter, returned value",
+        "exhaustive": bool(ctx.quick),
+    }, assumptions=["struct interfaces and a struct implementation; conditions read a flag array, a counter reference (before) and result",
+                    "thorough tier samples configurations by a hash of (VERIF_SEED, configuration)"])
+
+
+META["C10"] = {
+    "level_text": "TLC enumerates interface DAGs (<=2 quick / 3 thorough interfaces, every conformance order, diamonds), per-site function shapes "
+                  "(absent / pre / post / both / default body / override), which tests are false, body increment vs before-constant, return value vs "
+                  "result-constant, nested conditioned calls and calls through interface types; the specification computes success, failing condition, "
+                  "event sequence and logs and checks its own laws (judgement = all conditions hold, monotonicity, body iff pre); every configuration "
+                  "is rendered as a script and run on interpreter and VM.",
+    "level_note": "Trusted: TLC, the Go renderer. Quick is exhaustive for 2 interfaces with <=1 false test; thorough samples 3 interfaces / 2 false tests by seed.",
+    "technique": "TLA+ specification of condition inheritance and order (Conditions.tla) enumerated by TLC; table conformance on both engines",
+    "design_ref": "DESIGN.md section 5 C10",
+    "engine": "E4 table",
 }
